@@ -25,6 +25,7 @@ type Profile struct {
 	SmallKeys  bool // keys from a tiny alphabet (graphs / selectors)
 	IntsSmall  bool // small ints only
 	NoEmptyKey bool
+	wideUsed   int // wide containers drawn so far in the current value (at most one per value)
 }
 
 func FullProfile() Profile {
@@ -263,6 +264,7 @@ func DrawKeys(t *rapid.T, label string, n int, p *Profile) []string {
 
 // DrawV draws a value within the profile.
 func DrawV(t *rapid.T, p *Profile, label string) V {
+	p.wideUsed = 0
 	v := drawV(t, p, label, 1)
 	if p.JSONSafe {
 		v = FixReserved(v)
@@ -355,7 +357,8 @@ func drawV(t *rapid.T, p *Profile, label string, depth int) V {
 }
 
 func drawWidth(t *rapid.T, p *Profile, label string, depth int) int {
-	if p.Wide && depth <= 2 && rapid.IntRange(0, 39).Draw(t, label+".wide") == 0 {
+	if p.Wide && depth <= 2 && p.wideUsed == 0 && rapid.IntRange(0, 39).Draw(t, label+".wide") == 0 {
+		p.wideUsed++
 		return rapid.SampledFrom([]int{22, 23, 24, 25, 30, 255, 256, 257}).Draw(t, label+".w")
 	}
 	w := p.MaxWidth
